@@ -8,6 +8,7 @@ import (
 	"errors"
 	"io/fs"
 	"os"
+	"runtime"
 	"strings"
 	"sync"
 	"syscall"
@@ -28,6 +29,7 @@ type Event struct {
 	Fault  string `json:"fault,omitempty"`
 	Err    string `json:"err,omitempty"`
 	PKind  string `json:"pkind,omitempty"`
+	Site   string `json:"site,omitempty"` // source file of the calling martian code
 }
 
 type World struct {
@@ -68,6 +70,24 @@ func NextSeq() int {
 	return s
 }
 
+// callSite returns the base name of the first source file outside this package
+// on the call stack (which part of martian asked for the operation).
+func callSite() string {
+	var pcs [12]uintptr
+	n := runtime.Callers(3, pcs[:])
+	frames := runtime.CallersFrames(pcs[:n])
+	for {
+		f, more := frames.Next()
+		if f.File != "" && !strings.Contains(f.File, "/verifsim/") {
+			i := strings.LastIndexByte(f.File, '/')
+			return f.File[i+1:]
+		}
+		if !more {
+			return ""
+		}
+	}
+}
+
 func rel(p string) string {
 	if W.Root != "" && strings.HasPrefix(p, W.Root) {
 		r := strings.TrimPrefix(p[len(W.Root):], "/")
@@ -91,7 +111,7 @@ func begin(op, path, path2 string, size int) (*Event, int, bool) {
 		return nil, 0, false
 	}
 	fault := t.Park("fs", op+" "+rel(path))
-	ev := &Event{Task: t.Label, Op: op, Path: rel(path), Size: size}
+	ev := &Event{Task: t.Label, Op: op, Path: rel(path), Size: size, Site: callSite()}
 	if path2 != "" {
 		ev.Path2 = rel(path2)
 	}
